@@ -20,7 +20,7 @@ BUDGET = {"quick": 600, "thorough": 3600}
 
 
 def plan(tier):
-    n = 100 if tier == "quick" else 1500
+    n = 300 if tier == "quick" else 1500
     return [{"kind": "hyp", "n": n} for _ in range(16)]
 
 
